@@ -14,19 +14,45 @@ def _steps_with_edges(c, I):
 def gen_C01(rng, tier):
     kinds = G.LABEL_KINDS_QUICK if tier == 'quick' else G.LABEL_KINDS_ALL
     n = 2500 if tier == 'quick' else 30000
-    return G.histories(rng, n, ['D'], kinds, maxops=30 if tier == 'quick' else 40, reject_p=0.0)
+    ex = (G.exhaustive_histories('D', 'int', 2, 3, True) + G.exhaustive_histories('D', 'none', 2, 4, False)) if tier != 'quick' else []
+    return G.histories(rng, n, ['D'], kinds, maxops=30 if tier == 'quick' else 40, reject_p=0.0) + ex
 
 def gen_C02(rng, tier):
     kinds = G.LABEL_KINDS_QUICK if tier == 'quick' else G.LABEL_KINDS_ALL
     n = 2500 if tier == 'quick' else 30000
-    return G.histories(rng, n, ['U'], kinds, maxops=30 if tier == 'quick' else 40, reject_p=0.0)
+    ex = (G.exhaustive_histories('U', 'int', 2, 3, True) + G.exhaustive_histories('U', 'none', 2, 4, False)) if tier != 'quick' else []
+    return G.histories(rng, n, ['U'], kinds, maxops=30 if tier == 'quick' else 40, reject_p=0.0) + ex
 
 def gen_C04(rng, tier):
     n = 2500 if tier == 'quick' else 30000
-    return [G.multi_history(rng, rng.choice(['DM', 'UM']), maxops=30 if tier == 'quick' else 45) for _ in range(n)]
+    ex = (G.exhaustive_histories('DM', 'mult', 2, 3, True) + G.exhaustive_histories('UM', 'mult', 2, 3, True)) if tier != 'quick' else []
+    return [G.multi_history(rng, rng.choice(['DM', 'UM']), maxops=30 if tier == 'quick' else 45) for _ in range(n)] + ex
+def _rand_double_hex(rng):
+    import struct
+    r = rng.random()
+    if r < 0.25: d = rng.choice([0.1, 0.2, 0.3, -0.1, 1e16, -1e16, 1.0, 0.0, 3.5, 1e-8, 123456.789, 5e-324, 2.2250738585072014e-308, 1e300 / 7, -2.5e15])
+    elif r < 0.6: d = rng.uniform(-10, 10)
+    elif r < 0.8: d = rng.uniform(-1, 1) * 2.0 ** rng.randint(-70, 70)
+    else: d = float(rng.randint(-2 ** 53, 2 ** 53)) * 2.0 ** rng.randint(-60, 20)
+    return '%016X' % struct.unpack('<Q', struct.pack('<d', d))[0]
+def float_cases(rng, k):
+    """histories with ARBITRARY double weights (bit patterns): the running total is compared bit for bit with the Flocq model"""
+    out = []
+    for _ in range(k):
+        cls = rng.choice(['DW', 'UW']); n = rng.randint(1, 5); ops = []
+        for _ in range(rng.randint(3, 40)):
+            r = rng.random(); i, j = rng.randrange(n), rng.randrange(n)
+            if r < 0.45: ops.append('FA %d %d %s' % (i, j, _rand_double_hex(rng)))
+            elif r < 0.7: ops.append('FS %d %d %s' % (i, j, _rand_double_hex(rng)))
+            elif r < 0.95: ops.append('FR %d %d' % (i, j))
+            else: ops.append('FC')
+        out.append('WF %s hex %d : %s' % (cls, n, ' ; '.join(ops)))
+    return out
 def gen_C05(rng, tier):
     n = 2500 if tier == 'quick' else 30000
-    return [G.weighted_history(rng, rng.choice(['DW', 'UW']), maxops=30 if tier == 'quick' else 45) for _ in range(n)]
+    return [G.weighted_history(rng, rng.choice(['DW', 'UW']), maxops=30 if tier == 'quick' else 45) for _ in range(n)] + float_cases(rng, 700 if tier == 'quick' else 10000) \
+        + ((G.exhaustive_histories('DW', 'dbl', 2, 3, True) + G.exhaustive_histories('UW', 'dbl', 2, 3, True)) if tier != 'quick' else [])
+def route_C05(case): return 'float' if case.startswith('WF') else 'multi'
 MW_IMPORTS = 'Base DirectedModel DirectedSpec UndirectedModel UndirectedSpec MultiModel WeightedModel MultiSpec Instances'
 
 def _shuffled_adds(rng, cls, lk, n, pairs, fmt):
@@ -69,7 +95,8 @@ def coq_term_any(case):
 def gen_C03(rng, tier):
     kinds = ['int', 'int', 'str', 'pt'] if tier == 'quick' else ['int', 'long', 'dbl', 'chr', 'str', 'pt']
     n = 2500 if tier == 'quick' else 30000
-    return G.histories(rng, n, ['D', 'U'], kinds, maxops=30 if tier == 'quick' else 40, reject_p=0.0)
+    ex = (G.exhaustive_histories('D', 'int', 2, 3, True) + G.exhaustive_histories('U', 'int', 2, 3, True)) if tier != 'quick' else []
+    return G.histories(rng, n, ['D', 'U'], kinds, maxops=30 if tier == 'quick' else 40, reject_p=0.0) + ex
 
 def gen_C07(rng, tier):
     n = 500 if tier == 'quick' else 6000
@@ -88,6 +115,7 @@ def route_all(case):
     if t[0] in ('PATH', 'DJ'): return 'paths'
     if t[0] in ('BIN', 'BINW', 'TXT', 'TXTW', 'NOFILE'): return 'io'
     if t[0] == 'SUB': return 'classes'
+    if t[0] == 'WF': return 'float'
     return route_eq(case)
 def _has_reject(c, I):
     if c.split()[0] in ('PATH', 'DJ', 'SUB'): return any('-101' in l for l in I)
@@ -159,7 +187,25 @@ def gen_C11(rng, tier):
         out += GP.all_graph_cases(rng, 'D', 3) + GP.all_graph_cases(rng, 'D', 4, pairs_per_graph=1, sample=20000) + GP.all_graph_cases(rng, 'U', 4, pairs_per_graph=4)
         out += GP.all_graph_cases(rng, 'U', 5, pairs_per_graph=2, sample=5000) + GP.random_cases(rng, 5000, nmax=12, oor_p=0.0)
     return out + GP.family_cases(rng, tier)
+def djf_cases(rng, k):
+    """graphs with ARBITRARY non-negative double weights (bit patterns): findGeodesicsDijkstra compared bit for bit with the Flocq model"""
+    import struct
+    def w():
+        r = rng.random()
+        if r < 0.3: d = rng.choice([0.1, 0.2, 0.3, 0.30000000000000004, 1.0, 0.0, 2.5, 1e-8, 1e16, 123456.789, 5e-324, 0.7, 1e300 / 7])
+        elif r < 0.7: d = rng.uniform(0, 10)
+        else: d = rng.uniform(0, 1) * 2.0 ** rng.randint(-60, 60)
+        return '%016X' % struct.unpack('<Q', struct.pack('<d', d))[0]
+    out = []
+    for _ in range(k):
+        cls = rng.choice(['DW', 'UW']); n = rng.randint(1, 8)
+        es = ['FA %d %d %s' % (rng.randrange(n), rng.randrange(n), w()) for _ in range(rng.randint(0, 3 * n))]
+        out.append('DJF %s hex %d : %s | %d' % (cls, n, ' ; '.join(es), rng.randrange(n)))
+    return out
+def route_paths(case): return 'float' if case.split(None, 1)[0] in ('DJF', 'WF') else 'paths'
 def gen_C12(rng, tier):
+    return _gen_C12(rng, tier) + djf_cases(rng, 3000 if tier == 'quick' else 40000)
+def _gen_C12(rng, tier):
     if tier == 'quick':
         return GP.dj_small_exhaustive(rng, 3, 2) + GP.dj_random(rng, 1200, nmax=7, oor_p=0.0) + GP.dj_families(rng, tier) + GP.dj_funnel(rng, 12000) + GP.dj_wide(rng, 12000)
     return GP.dj_small_exhaustive(rng, 3, 8) + GP.dj_small_exhaustive(rng, 4, 1) + GP.dj_random(rng, 15000, nmax=30, oor_p=0.0) + GP.dj_families(rng, tier) \
@@ -238,7 +284,9 @@ CXX_MATRIX = [
 CXX_MATRIX_THOROUGH = CXX_MATRIX + [
     dict(tag='clang_O0_debugstl', flags=['clang++', '-std=c++14', '-O0', '-g', '-D_GLIBCXX_DEBUG']),
     dict(tag='gxx_O3_asan_ubsan', flags=['g++', '-std=c++14', '-O3', '-g', '-fsanitize=address,undefined', '-fno-sanitize-recover=all']),
-    dict(tag='gxx_O0_valgrind', flags=['g++', '-std=c++14', '-O0', '-g'], wrap=['valgrind', '-q', '--error-exitcode=97', '--exit-on-first-error=yes'], sample=1500),
+    # valgrind emulates x87 extended precision with 64-bit doubles (documented limitation): the long double totals of the floating-point cases differ there by design
+    dict(tag='gxx_O0_valgrind', flags=['g++', '-std=c++14', '-O0', '-g'], wrap=['valgrind', '-q', '--error-exitcode=97', '--exit-on-first-error=yes'], sample=1500,
+         skip=lambda c: c.split(None, 1)[0] in ('WF', 'DJF')),
 ]
 def kind_histogram(cases):
     h = {}
@@ -246,7 +294,7 @@ def kind_histogram(cases):
     return h
 
 PROPS = {
- 'C17': dict(harness=['classes', 'multi', 'paths', 'io'], route=route_all, gen=gen_C17, shrink=shrink_ops, shards=4, histogram=kind_histogram,
+ 'C17': dict(harness=['classes', 'multi', 'paths', 'io', 'float'], route=route_all, gen=gen_C17, shrink=shrink_ops, shards=4, histogram=kind_histogram,
              matrix=lambda tier: CXX_MATRIX if tier == 'quick' else CXX_MATRIX_THOROUGH, nontrivial=lambda c, I: len(c.split(':', 1)[1].strip()) > 8,
              model_name='all class / path-search / IO models (every call defined: no UBk / Undef outcome)',
              rule='a sample of the cases of every other check (histories on all eight classes incl. forced insertions and rejected calls, equality / conversion / constructor / subgraph '
@@ -285,12 +333,12 @@ PROPS = {
  'C11': dict(harness='paths', impl_timeout=120, gen=gen_C11, shrink=shrink_ops, segments=seg_C11, nontrivial=_path_nontrivial, model_name='PathsModel (BFS, parent walk, stack loop)',
              histogram=lambda cases: {'directed': sum(1 for c in cases if c.startswith('PATH D')), 'undirected': sum(1 for c in cases if c.startswith('PATH U'))},
              rule=PATH_RULE % 'every directed graph on <=3 vertices and every undirected graph on <=3 (sampled on 4) with self-loops x (all) source/destination pairs, layered and grid families, random graphs to 8 vertices with cycles, several components and forced duplicates (thorough: directed <=4, undirected <=5, random to 12)'),
- 'C12': dict(harness='paths', impl_timeout=120, gen=gen_C12, shrink=shrink_ops, segments=seg_C12, nontrivial=_path_nontrivial, model_name='Dj.run (choice-driven Dijkstra) following the implementation pop sequence',
+ 'C12': dict(harness=['paths', 'float'], route=route_paths, impl_timeout=120, trusted=['Flocq 4 and the Coq Reals for the C12_float_* theorems: standard-library axioms ClassicalDedekindReals.sig_forall_dec, ClassicalDedekindReals.sig_not_dec, Classical_Prop.classic, FunctionalExtensionality.functional_extensionality_dep; platform assumption checked by the bit-for-bit comparison: double additions evaluated in binary64 (x86-64 SSE)'], gen=gen_C12, shrink=shrink_ops, segments=seg_C12, nontrivial=_path_nontrivial, model_name='Dj.run (choice-driven Dijkstra) following the implementation pop sequence',
              histogram=lambda cases: {'directed': sum(1 for c in cases if c.startswith('DJ DW')), 'undirected': sum(1 for c in cases if c.startswith('DJ UW'))},
              rule='weighted graphs with exactly representable weights from {0, 1, 2, 5}: every loop-free directed topology on 3 vertices x random weight assignments x all sources (as '
                   'DirectedWeightedGraph or UndirectedWeightedGraph), random graphs to 7 vertices (thorough: 30), zero-weight cycles, ties, layered and grid families; '
                   'findGeodesicsDijkstra on a counting graph type; distances compared exactly with the model (which replays the implementation pop sequence and checks every pop is a '
-                  'minimum of the worklist) and with Bellman-Ford on the spec side; the predecessor vector is validated against dist[v] = dist[p] + w(p,v); non-trivial = >= 2 edges'),
+                  'minimum of the worklist) and with Bellman-Ford on the spec side; the predecessor vector is validated against dist[v] = dist[p] + w(p,v); plus graphs with ARBITRARY non-negative double weights (bit patterns: decimal fractions, ties such as 0.1+0.2 vs 0.30000000000000004, subnormal, 1e16- and 1e299-scale, random exponents -60..60): distances compared BIT FOR BIT with the Flocq model following the implementation pop sequence and with the own schedule of the model, predecessors validated with the rounded addition; non-trivial = >= 2 edges'),
  'C19': dict(harness='paths', impl_timeout=120, gen=gen_C19, adaptive=adaptive_C19, shrink=shrink_ops, segments=seg_C19, nontrivial=_path_nontrivial, model_name='scan counters of the path-search models',
              histogram=lambda cases: {'bfs_cases': sum(1 for c in cases if c.startswith('PATH')), 'dijkstra_cases': sum(1 for c in cases if c.startswith('DJ'))},
              rule='the number of getOutNeighbours calls made by findVertexPredecessors, findAllVertexPredecessors and findGeodesicsDijkstra on a counting graph type, compared with the '
@@ -348,11 +396,11 @@ PROPS = {
              rule='seeded random histories on DirectedMultigraph / UndirectedMultigraph (force off): addEdge, addMultiedge, reciprocal variants, removeEdge, removeMultiedge, '
                   'setEdgeMultiplicity, bulk removals, resize; multiplicity arguments drawn around the current value (0, 1, cur-1, cur, cur+1); both orientations; '
                   'all observers compared after every call with the Coq model and the multiplicity-function spec; non-trivial = reaches a state with >=1 edge'),
- 'C05': dict(harness='multi', gen=gen_C05, coq_term=G.coq_term_mw, histogram=G.op_histogram, coq_imports=MW_IMPORTS,
+ 'C05': dict(harness=['multi', 'float'], route=route_C05, trusted=['Flocq 4 and the Coq Reals for the C05_float_* theorems: standard-library axioms ClassicalDedekindReals.sig_forall_dec, ClassicalDedekindReals.sig_not_dec, Classical_Prop.classic, FunctionalExtensionality.functional_extensionality_dep (see the per-theorem Print Assumptions lines); platform assumption checked by the bit-for-bit comparison: long double = x87 extended, double arithmetic in binary64'], gen=gen_C05, coq_term=lambda c: None if c.startswith('WF') else G.coq_term_mw(c), histogram=G.op_histogram, coq_imports=MW_IMPORTS,
              nontrivial=_steps_with_edges, model_name='WeightedModel.dw_step/uw_step',
              rule='seeded random histories on DirectedWeightedGraph / UndirectedWeightedGraph (force off) with exactly representable weights k/4 (negative, zero, positive); '
                   'addEdge, setEdgeWeight on present and absent edges in both orientations, every removal, resize; all observers incl. getTotalWeight and getWeightMatrix '
-                  'compared after every call with the Coq model and the weight-function spec; non-trivial = reaches a state with >=1 edge'),
+                  'compared after every call with the Coq model and the weight-function spec; plus histories with ARBITRARY double weights given as bit patterns (0.1-like decimals, 1e16-scale and subnormal values, random mantissas with exponents -70..70, both signs): getTotalWeight (long double, resp. its double rounding for the undirected class) after every call compared BIT FOR BIT with the Flocq model of the running total and checked against the proved accumulated-rounding-error bound of the exact sum; non-trivial = reaches a state with >=1 edge'),
  'C02': dict(harness='classes', gen=gen_C02, coq_term=G.coq_term_history, histogram=G.op_histogram, coq_imports='Base DirectedModel DirectedSpec UndirectedModel UndirectedSpec Instances',
              segments=[0, 1, 2, 3, 6, 7, 8], nontrivial=_steps_with_edges, model_name='UndirectedModel.ustep/u_observe',
              rule='seeded random histories of LabeledUndirectedGraph<L> mutators (force off), each call naming its pair in a random orientation; sizes 0-5(+resize); '
